@@ -49,6 +49,10 @@ def run(ctx):
 
 
 def run_cfg(ctx, p, cfg):
+    if "config_parsing" in p.meta.get("features", []):
+        from rules import serde_defaults
+        common.rule_config_reaches_component(ctx, p, cfg, "Q6", "TimeTriggerDeserializer", "TimeTrigger::new", stored={"config": 1})
+        serde_defaults.rule_missing_keys(ctx, p, cfg, "Q7", "trigger::time::TimeTriggerConfig")     # no modulation and no random delay unless asked for
     with ctx.rule("Q0", "panic inventory", cfg) as r:
         cone = p.cone([NEW, TRIG], cut_traits=CUT)
         st = panics.check_cone(r, p, cone, "C16")
